@@ -201,3 +201,14 @@ def chirp_z_definition(o):
     """C01: czt(x, m, w, a) against its defining sum for small sizes, m != n, w off the DFT grid and |a| != 1"""
     from contracts import standins
     return '#include <complex>\n' + standins.CZT
+
+
+@adapter(r'_harm_analyze|_get_psd_tone|dsplib::(snr|sinad|thd)|_periodogram')
+def snr_degenerate_inputs(o):
+    """C05: snr / sinad / thd of an all-zero or constant signal (a spectrum without power) have nothing to measure, but must not
+    run into undefined behaviour on the way (the build checks float-to-int conversions)"""
+    return HDR + '''
+int main() { for (int n : {16, 64, 100}) { arr_real z = zeros(n); arr_real c(n); for (int i = 0; i < n; ++i) c[i] = 3.0;
+    volatile double a = snr(z), b = sinad(c), d = thd(c).value, e = snr(c, 3, true); (void)a; (void)b; (void)d; (void)e; }
+  return 0; }
+'''
